@@ -343,7 +343,12 @@ def tail(R):
             if isinstance(p, (ast.For, ast.While, ast.ListComp, ast.GeneratorExp, ast.comprehension, ast.SetComp)):
                 inloop = True
             p = parents.get(id(p))
-        after = all(all_paths_pass(g, [g.entry], [pn for (pn, _) in per], [lit[0][0]], skip_edge=nx) for _ in [0]) if per else False
+        # the per-fragment inflate site(s) come first: either every path passes one (comprehension), or they sit in a
+        # loop over the fragments that is left before the trailer is fed
+        pern = [pn for (pn, _) in per]
+        after = bool(per) and (all_paths_pass(g, [g.entry], pern, [lit[0][0]], skip_edge=nx) or all(
+            any(fr.kind == 'loop' for fr in pn.frames) and lit[0][0] in g.succ_reach(pn, skip_edge=nx)
+            and pn not in g.succ_reach(lit[0][0], skip_edge=nx) for pn in pern))
         R.ob('C06.tail', 'trailer fed once, after all fragments', not inloop and after,
              'the sync-flush trailer is fed %s' % ('per fragment' if inloop else 'before the fragments'), func=f, node=lit[0][1])
     # per-frame feeding: comprehension over the frames parameter itself, element = frame.payload (maybe bytes())
@@ -364,6 +369,14 @@ def tail(R):
             why = 'fragments inflated by %s' % U(p)
         elif isinstance(p, ast.For):
             a = c.args[0]
+            if isinstance(a, ast.Name):
+                # the fragment payload taken into a local first (possibly a PY2/PY3 conditional expression)
+                a = rd.origin(n, a)[0]
+                if isinstance(a, ast.IfExp):
+                    from ..program import py_const
+                    pc = py_const(a.test, f.module)
+                    if pc is not None:
+                        a = a.body if pc else a.orelse
             if isinstance(a, ast.Call) and U(a.func) in ('bytes', 'bytearray') and a.args:
                 a = a.args[0]
             okf = U(p.iter) == frames and U(a) == '%s.payload' % U(p.target)
